@@ -57,9 +57,13 @@ def rand_state(rng, names, safe_names, maxdepth=4, exec_extra=True):
         ivec=[[rng.choice([rand_i32(rng), rng.randrange(0, 13)]) for _ in range(rand_vec_len(rng))] for _ in range(d())],
         input=[([rng.randrange(0, 5) for _ in range(rng.randrange(0, 3))], [rng.random() < 0.5 for _ in range(rng.randrange(0, 4))]) for _ in range(rng.randrange(0, 4))],
         output=[([rng.randrange(0, 5)], [rng.random() < 0.5 for _ in range(rng.randrange(0, 3))]) for _ in range(rng.randrange(0, 4))],
-        bind=[(n, rand_item(rng, safe_names, 2)) for n in rng.sample(NAMES_POOL, rng.randrange(0, 3))],
+        bind=[(n, rand_item(rng, safe_names, 2)) for n in rng.sample(NAMES_POOL, rng.choice([0, 0, 1, 2, 2, 3]))],
         quote=rng.random() < 0.1, send=rng.random() < 0.1,
     )
+    # in half of the states that have bindings the top NAME (if any) is a bound name: instructions that
+    # look a name up (CODE.DEFINITION, the identifier step, redefinition by *.DEFINE) then really fire
+    if st["bind"] and st["name"] and rng.random() < 0.5:
+        st["name"] = [rng.choice(st["bind"])[0]] + st["name"][1:]
     return st
 
 
